@@ -29,11 +29,7 @@ func checkC07(c streamCase) (Outcome, error) {
 	if undecidable(d) {
 		return Outcome{Skip: "uniformity P within 1e-9 of 1e-4"}, nil
 	}
-	if c.PriorFail > 0 && w.SampleBytes <= 2500 {
-		// history: an earlier detection in this process ran dry after PriorFail bytes of the same stream
-		out.Classes = append(out.Classes, "after-a-failed-call")
-		_, _ = w.Seq(gen.NewReader(stream[:min(c.PriorFail, len(stream))]))
-	}
+	c.runPrior(stream, &out) // history: an earlier detection in this process ran dry after PriorFail bytes of the same stream
 	src, done := openSource(c, stream)
 	v, err := w.Seq(src)
 	done()
@@ -72,9 +68,7 @@ func genC07(t *rapid.T) streamCase {
 		targets = strings.Split(v, ",")
 	}
 	c := drawStream(t, wn, targets)
-	if wn == "period" && rapid.IntRange(0, 3).Draw(t, "history") == 0 {
-		c.PriorFail = rapid.SampledFrom([]int{1, 2500, 2501, 7000, 25000, 49999}).Draw(t, "prior_fail")
-	}
+	drawPrior(t, &c)
 	return c
 }
 
